@@ -399,6 +399,8 @@ def to_args(opts):
             continue
         if v is True:
             args.append(k)
+        elif str(v).startswith('-'):
+            args.append('%s=%s' % (k, v))
         else:
             args += [k, str(v)]
     return args
